@@ -92,6 +92,10 @@ def run(R, tier, seed, driver_ok):
         finally:
             mi._initialize_metric_mahalanobis = orig
         A0 = store['A0']
+        # the matrix the iterations start from is the documented prior for these pairs
+        want0, cond0 = zoo.documented_prior(prior_kind, pairs, prior if prior_kind == 'array' else None)
+        if want0 is not None and np.abs(A0 - want0).max() > max(1e-9, 1e3 * 2.3e-16 * cond0) * max(np.abs(want0).max(), 1e-300):
+            R.violation(f'ITML/prior-{prior_kind}-not-as-documented', f'the prior ITML starts from differs from the documented {prior_kind} prior of these pairs (max diff {np.abs(A0 - want0).max():.3g})', case)
         M = est.get_mahalanobis_matrix()
         R.case(('c11', pairs.tobytes().hex()[:64], prior_kind, gamma, max_iter, tol, repr(bounds), supervised), True,
                sample={'d': d, 'n_pairs': len(yy), 'prior': prior_kind, 'gamma': gamma, 'max_iter': max_iter, 'tol': tol, 'bounds': bounds,
